@@ -8,7 +8,7 @@ use crate::core::area::Area;
 use crate::core::execute::verif_ex::*;
 use crate::number::big_number::verif_bn::{m_div, m_mul, m_new1};
 use crate::number::big_number::BigNum;
-use crate::number::num::verif_num::{m_num_add, m_num_mul};
+use crate::number::num::verif_num::{m_num_add, m_num_mul, num_is, num_of_v};
 use crate::vlib::*;
 use crate::vspec::*;
 
@@ -140,7 +140,7 @@ ostep!(o_dup_area, Cfg { kind: 5, h: 1, d: 4, area: 3, depth: [0, 0, 0, 2, 2, 0]
 ostep!(o_heart_new, Cfg { kind: 0, h: 1, d: 2, area: 1, depth: [0, 0, 0, 1, 0, 0], ..CFG0 });
 // @h prop=C02 unwind=10 rec=3 cutfmt=1 uw=same_output.0:25;exit_model.0:25;exit.0:25;push.0:17;write.0:17 timeout=900 what=?_area_pop_on_stack_3
 ostep!(o_q, Cfg { kind: 0, h: 1, d: 2, area: 3, depth: [0, 0, 0, 2, 0, 0], ..CFG0 });
-// @h prop=C02 unwind=10 rec=2 cutfmt=num uw=same_output.0:25;exit_model.0:25;exit.0:25;push.0:17;write.0:17 timeout=900 what=항_to_stdout:captured_output_equals_definition_or_same_encoding_error
+// @h prop=C02 unwind=10 rec=2 cutfmt=num uw=same_output.0:25;exit_model.0:25;exit.0:25;push.0:17;write.0:17 timeout=1800 what=항_to_stdout:captured_output_equals_definition_or_same_encoding_error
 ostep!(o_out_char, Cfg { kind: 1, h: 1, d: 1, dom: Dom::Scalar, depth: [0, 0, 0, 2, 0, 0], ..CFG0 });
 // @h prop=C02 unwind=10 rec=2 cutfmt=num uw=same_output.0:25;exit_model.0:25;exit.0:25;push.0:17;write.0:17 timeout=900 what=항_to_stderr:negative/NaN_text_captured
 ostep!(o_err_neg, Cfg { kind: 1, h: 1, d: 2, dom: Dom::Digit, depth: [0, 0, 0, 2, 0, 0], ..CFG0 });
@@ -177,7 +177,7 @@ ostep!(n_k5_c1, Cfg { kind: 5, h: 1, d: 3, cur: 1, depth: [1, 0, 0, 1, 0, 0], ..
 // @h prop=C10 unwind=10 rec=3 cutfmt=num uw=same_output.0:25;exit_model.0:25;exit.0:25;push.0:17;write.0:17 timeout=600 mem=12 what=형?_with_stack_1_selected:push_then_area_pop->gives_up
 ostep!(n_area_c1, Cfg { kind: 0, h: 1, d: 1, cur: 1, area: 3, depth: [1, 0, 0, 1, 0, 0], ..CFG0 });
 // @h prop=C10 unwind=10 rec=3 cutfmt=num uw=same_output.0:25;exit_model.0:25;exit.0:25;push.0:17;write.0:17 timeout=600 mem=12 what=흑_selects_stack_1_then_!_area_pop->gives_up
-ostep!(n_dup_to_c1, Cfg { kind: 5, h: 1, d: 1, area: 4, depth: [1, 0, 0, 1, 0, 0], ..CFG0 });
+ostep!(n_dup_to_c1, Cfg { kind: 5, h: 1, d: 1, area: 4, dom: Dom::Digit, depth: [1, 0, 0, 1, 0, 0], ..CFG0 });
 // @h prop=C10 unwind=10 rec=2 cutfmt=1 uw=same_output.0:25;exit_model.0:25;exit.0:25;push.0:17;write.0:17 timeout=600 mem=12 what=kind_1_with_stack_2_selected:gives_up,state_untouched,no_read,no_exit,no_output
 ostep!(n_k1_c2, Cfg { kind: 1, h: 1, d: 3, cur: 2, depth: [1, 0, 0, 1, 0, 0], ..CFG0 });
 // @h prop=C10 unwind=10 rec=2 cutfmt=1 uw=same_output.0:25;exit_model.0:25;exit.0:25;push.0:17;write.0:17 timeout=600 mem=12 what=kind_2_with_stack_2_selected:gives_up,state_untouched,no_read,no_exit,no_output
@@ -191,7 +191,7 @@ ostep!(n_k5_c2, Cfg { kind: 5, h: 1, d: 3, cur: 2, depth: [1, 0, 0, 1, 0, 0], ..
 // @h prop=C10 unwind=10 rec=3 cutfmt=num uw=same_output.0:25;exit_model.0:25;exit.0:25;push.0:17;write.0:17 timeout=600 mem=12 what=형?_with_stack_2_selected:push_then_area_pop->gives_up
 ostep!(n_area_c2, Cfg { kind: 0, h: 1, d: 1, cur: 2, area: 3, depth: [1, 0, 0, 1, 0, 0], ..CFG0 });
 // @h prop=C10 unwind=10 rec=3 cutfmt=num uw=same_output.0:25;exit_model.0:25;exit.0:25;push.0:17;write.0:17 timeout=600 mem=12 what=흑_selects_stack_2_then_!_area_pop->gives_up
-ostep!(n_dup_to_c2, Cfg { kind: 5, h: 1, d: 2, area: 4, depth: [1, 0, 0, 1, 0, 0], ..CFG0 });
+ostep!(n_dup_to_c2, Cfg { kind: 5, h: 1, d: 2, area: 4, dom: Dom::Digit, depth: [1, 0, 0, 1, 0, 0], ..CFG0 });
 // @h prop=C10 unwind=10 rec=2 cutfmt=1 uw=same_output.0:25;exit_model.0:25;exit.0:25;push.0:17;write.0:17 timeout=600 mem=12 what=형_with_stdin_selected_and_no_area:pushes_onto_the_input_buffer,commits,no_read
 ostep!(n_push_c0, Cfg { kind: 0, h: 2, d: 2, cur: 0, depth: [1, 0, 0, 0, 0, 0], ..CFG0 });
 
@@ -223,4 +223,171 @@ pub fn twin_noeffect() {
     let c = Cfg { kind: 1, h: 1, d: 3, cur: 0, depth: [1, 0, 0, 1, 0, 0], ..CFG0 };
     opt_check(&c);
     assert!(false);
+}
+
+// ===========================================================================
+// C02 family 3: the bounds-checked overrides of OptState agree with the State trait defaults
+// (the NaN rule) for stacks inside the range, and are no-ops / NaN outside it.
+// ===========================================================================
+fn rs_model() -> std::collections::hash_map::RandomState {
+    // fixed keys: HashMap::new() otherwise asks the OS for randomness (FFI)
+    unsafe { std::mem::transmute((0u64, 0u64)) }
+}
+fn optstate_ops(idx: usize, depth: usize) {
+    let size = 5usize;
+    let a = any_v(Dom::I8, false);
+    let b = any_v(Dom::I8, true);
+    let x = any_v(Dom::I8, true);
+    let mut st = OptState::new(size);
+    let mut i = 0;
+    while i < size {
+        // fresh buffers with room for every push of this harness (growing a Vec that lives behind
+        // a heap pointer is beyond the symbolic executor)
+        let old = std::mem::replace(st.get_stack(i), Vec::with_capacity(4));
+        std::mem::forget(old);
+        i += 1;
+    }
+    // definition on a plain array
+    let mut m = [NAN; 4];
+    let mut ml = 0usize;
+    if idx < size {
+        if depth >= 1 {
+            st.get_stack(idx).push(num_of_v(a));
+            m[0] = a;
+            ml = 1;
+        }
+        if depth >= 2 {
+            st.get_stack(idx).push(num_of_v(b));
+            m[1] = b;
+            ml = 2;
+        }
+    }
+    st.push_stack(idx, num_of_v(x));
+    if idx < size && !(ml == 0 && x.is_nan()) {
+        m[ml] = x;
+        ml += 1;
+    }
+    if idx < size {
+        assert!(st.get_stack(idx).len() == ml, "push_stack: wrong stack depth (NaN rule / range check)");
+    }
+    // pop everything and one more
+    let mut k = 0;
+    while k < 4 {
+        let got = st.pop_stack(idx);
+        let want = if idx < size && ml > 0 {
+            ml -= 1;
+            m[ml]
+        } else {
+            NAN
+        };
+        assert!(num_is(&got, want), "pop_stack differs from the definition");
+        std::mem::forget(got);
+        k += 1;
+    }
+    assert!(st.stack_size() == size && st.current_stack() == 3);
+    std::mem::forget(st);
+}
+macro_rules! optstate {
+    ($name:ident, $idx:expr, $depth:expr) => {
+        #[cfg_attr(kani, kani::proof)]
+        #[cfg_attr(kani, kani::stub(std::collections::hash_map::RandomState::new, rs_model))]
+        pub fn $name() {
+            optstate_ops($idx, $depth);
+            vcover!();
+        }
+    };
+}
+// @h prop=C02 unwind=8 timeout=600 mem=12 tier=thorough kind=stretch stubs=RandomState::new->fixed_keys what=OptState::push_stack/pop_stack_on_stack_0_of_5,pre-depth_0:NaN_rule_of_the_trait_default,out-of-range=no-op/NaN
+optstate!(optstate_i0_d0, 0, 0);
+// @h prop=C02 unwind=8 timeout=600 mem=12 tier=thorough kind=stretch stubs=RandomState::new->fixed_keys what=OptState::push_stack/pop_stack_on_stack_0_of_5,pre-depth_1:NaN_rule_of_the_trait_default,out-of-range=no-op/NaN
+optstate!(optstate_i0_d1, 0, 1);
+// @h prop=C02 unwind=8 timeout=600 mem=12 tier=thorough kind=stretch stubs=RandomState::new->fixed_keys what=OptState::push_stack/pop_stack_on_stack_0_of_5,pre-depth_2:NaN_rule_of_the_trait_default,out-of-range=no-op/NaN
+optstate!(optstate_i0_d2, 0, 2);
+// @h prop=C02 unwind=8 timeout=600 mem=12 tier=thorough kind=stretch stubs=RandomState::new->fixed_keys what=OptState::push_stack/pop_stack_on_stack_3_of_5,pre-depth_0:NaN_rule_of_the_trait_default,out-of-range=no-op/NaN
+optstate!(optstate_i3_d0, 3, 0);
+// @h prop=C02 unwind=8 timeout=600 mem=12 tier=thorough kind=stretch stubs=RandomState::new->fixed_keys what=OptState::push_stack/pop_stack_on_stack_3_of_5,pre-depth_1:NaN_rule_of_the_trait_default,out-of-range=no-op/NaN
+optstate!(optstate_i3_d1, 3, 1);
+// @h prop=C02 unwind=8 timeout=600 mem=12 tier=thorough kind=stretch stubs=RandomState::new->fixed_keys what=OptState::push_stack/pop_stack_on_stack_3_of_5,pre-depth_2:NaN_rule_of_the_trait_default,out-of-range=no-op/NaN
+optstate!(optstate_i3_d2, 3, 2);
+// @h prop=C02 unwind=8 timeout=600 mem=12 tier=thorough kind=stretch stubs=RandomState::new->fixed_keys what=OptState::push_stack/pop_stack_on_stack_4_of_5,pre-depth_0:NaN_rule_of_the_trait_default,out-of-range=no-op/NaN
+optstate!(optstate_i4_d0, 4, 0);
+// @h prop=C02 unwind=8 timeout=600 mem=12 tier=thorough kind=stretch stubs=RandomState::new->fixed_keys what=OptState::push_stack/pop_stack_on_stack_4_of_5,pre-depth_1:NaN_rule_of_the_trait_default,out-of-range=no-op/NaN
+optstate!(optstate_i4_d1, 4, 1);
+// @h prop=C02 unwind=8 timeout=600 mem=12 tier=thorough kind=stretch stubs=RandomState::new->fixed_keys what=OptState::push_stack/pop_stack_on_stack_4_of_5,pre-depth_2:NaN_rule_of_the_trait_default,out-of-range=no-op/NaN
+optstate!(optstate_i4_d2, 4, 2);
+// @h prop=C02 unwind=8 timeout=600 mem=12 stubs=RandomState::new->fixed_keys what=OptState::push_stack/pop_stack_on_stack_5_of_5,pre-depth_0:NaN_rule_of_the_trait_default,out-of-range=no-op/NaN
+optstate!(optstate_i5_d0, 5, 0);
+// @h prop=C02 unwind=8 timeout=600 mem=12 stubs=RandomState::new->fixed_keys what=OptState::push_stack/pop_stack_on_stack_7_of_5,pre-depth_0:NaN_rule_of_the_trait_default,out-of-range=no-op/NaN
+optstate!(optstate_i7_d0, 7, 0);
+
+// ===========================================================================
+// C10: the 100-jump budget.  Two-command loops whose state does not grow: the appended command
+// jumps back (through a label, or through the white heart) for ever; pre-execution must give
+// up after exactly 100 jumps and leave nothing behind.  The opt_execute loop is unwound 204
+// times; if the budget were not enforced the unwinding assertion fails = no termination within
+// the bound = violation (`unwind_is_violation`).
+// ===========================================================================
+fn budget_check(white: bool) {
+    // The loop body is chosen so that every value the symbolic executor meets is concrete
+    // (흑 on an EMPTY selected stack: pops NaN, copies and restores nothing): 2 x 100 iterations of
+    // the real loop are then affordable.  What varies is only which jump path closes the loop.
+    let ac = 7usize;
+    let lbl = ((ac as u128) << 4) + 4;
+    // loc 0: 흑 (stay on stack 3) with a heart registered HERE
+    let a = OptCode::new(5, 1, 3, ac, Area::new(4));
+    let filler = || OptCode::new(0, 1, 1, 1, Area::Nil);
+    // appended: same command; its heart is registered at loc 0 -> jumps there every time,
+    // or the white heart with a last jump source of 0
+    let cmd = OptCode::new(5, 1, 3, ac, if white { Area::new(13) } else { Area::new(4) });
+    let l = LState {
+        st: [Vec::new(), Vec::new(), Vec::new(), Vec::new(), Vec::new(), Vec::new()],
+        code: [a, filler(), filler(), filler()],
+        ncode: 1,
+        cur: 3,
+        latest: if white { Some(0) } else { None },
+        pts: [(lbl, 0), (0, 0), (0, 0)],
+        npts: 1,
+    };
+    unsafe {
+        EXIT_FORBIDDEN = true;
+    }
+    let mut rd = LineReader { line: Vec::new(), avail: false, reads: 0, forbidden: true };
+    let mut out = CapW::new(false);
+    let mut err = CapW::new(true);
+    let got = opt_execute(&mut rd, &mut out, &mut err, l, &cmd);
+    match got {
+        Ok((post, false)) => {
+            assert!(post.ncode == 1 && post.cur == 3 && post.npts == 1, "state not rolled back after the budget ran out");
+            assert!(post.st[3].is_empty(), "stack not rolled back");
+            assert!(post.latest == if white { Some(0) } else { None }, "last jump source not rolled back");
+            assert!(out.len == 0 && err.len == 0 && rd.reads == 0);
+            std::mem::forget(post);
+        }
+        Ok((post, true)) => assert!(false, "an endless loop was 'completed'"),
+        Err(_) => assert!(false, "error"),
+    }
+    vcover!();
+    std::mem::forget((rd, out, err, cmd));
+}
+// @h prop=C10 unwind=8 rec=2 cutfmt=1 uw=opt_execute.0:204;opt_execute.1:204;opt_execute.2:204;opt_execute.3:204;opt_execute.4:204;opt_execute.5:204;opt_execute.6:204;opt_execute.7:204;opt_execute.8:204 unwind_is_violation=opt_execute timeout=10800 mem=24 tier=thorough kind=stretch what=endless_label-jump_loop:gives_up_after_100_jumps,state_rolled_back
+#[cfg_attr(kani, kani::proof)]
+#[cfg_attr(kani, kani::stub(crate::number::num::Num::add, m_num_add))]
+#[cfg_attr(kani, kani::stub(crate::number::num::Num::mul, m_num_mul))]
+#[cfg_attr(kani, kani::stub(crate::number::big_number::BigNum::mul, m_mul))]
+#[cfg_attr(kani, kani::stub(crate::number::big_number::BigNum::new, m_new1))]
+#[cfg_attr(kani, kani::stub(std::process::exit, exit_model))]
+#[cfg_attr(kani, kani::stub(std::fmt::format, fmt_model))]
+pub fn budget_label() {
+    budget_check(false);
+}
+// @h prop=C10 unwind=8 rec=2 cutfmt=1 uw=opt_execute.0:204;opt_execute.1:204;opt_execute.2:204;opt_execute.3:204;opt_execute.4:204;opt_execute.5:204;opt_execute.6:204;opt_execute.7:204;opt_execute.8:204 unwind_is_violation=opt_execute timeout=10800 mem=24 tier=thorough kind=stretch what=endless_white-heart_loop:gives_up_after_100_jumps,state_rolled_back
+#[cfg_attr(kani, kani::proof)]
+#[cfg_attr(kani, kani::stub(crate::number::num::Num::add, m_num_add))]
+#[cfg_attr(kani, kani::stub(crate::number::num::Num::mul, m_num_mul))]
+#[cfg_attr(kani, kani::stub(crate::number::big_number::BigNum::mul, m_mul))]
+#[cfg_attr(kani, kani::stub(crate::number::big_number::BigNum::new, m_new1))]
+#[cfg_attr(kani, kani::stub(std::process::exit, exit_model))]
+#[cfg_attr(kani, kani::stub(std::fmt::format, fmt_model))]
+pub fn budget_white() {
+    budget_check(true);
 }
